@@ -177,7 +177,11 @@ def check(ctx):
         # the iterator advanced for the nested iteration is moved back on EVERY way out of it — also when the nested
         # iteration failed: an xor of THIS iteration that catches the failure must see this iteration's element
         back = [c for c in nx.calls if c.path.endswith("Iterable<'ctx>>::prev") or (c.path.endswith("::prev") and "Iterable" in c.path)]
-        ok3 = len(back) >= 1 and nx.must_pass(head[0].target, [c.bb for c in back])
+        # where the nested result is inspected (`result?`): the Try::branch applied to the value of the nested execute
+        trys = [c for c in nx.calls if lib.is_try_branch(c.path) and any(s_[0] == "call" and s_[3] is head[0] for s_ in walk(np_.operand(c.args[0])))]
+        edges = lib.result_edges(nx, trys[0]) if len(trys) == 1 else {}
+        ok3 = len(back) >= 1 and "ok" in edges and "err" in edges and all(any(nx.dominates(c.bb, edges[k]) for c in back) or
+                                                                          nx.must_pass(edges[k], [c.bb for c in back]) for k in ("ok", "err"))
         ctx.require(ok3, "R-PAIR", "next:advance-restored", "iterable.next() is undone by iterable.prev() on every path after the nested iteration, error path included",
                     "Next::execute can leave after the nested iteration (through the `?` on its result) without moving the iterator back: an xor in the enclosing iteration that catches "
                     "the failure then runs with the iterator still on the later element and issues calls with arguments the sequential reading never produces")
